@@ -349,7 +349,7 @@ def idxOk : ApiOp → Prop
   | .sNew d _ | .sLit d _ | .sClear d | .sAppend d _ | .sReserve d _ | .sDel d | .sSet d _ | .sPrepend d _ | .sResize d _
   | .sEdit d _ _ _ | .sPrintf d _ | .vClear d | .vSetInt d _ | .vSetStr d _ | .vAppStr d _ | .vPush d _ | .vSetList d _
   | .vPushA d _ | .vSetArr d _ | .vPutM d _ _ | .vSetMap d _ _ | .xClear d | .xSetStr d _ | .xElem d _ | .pNew d _
-  | .pClear d | .pNext d => d < nVars
+  | .pClear d | .pNext d | .gNew d _ _ _ _ | .gEdit d _ _ => d < nVars
   | .sCopy d s | .sAssign d s | .vCopy d s | .vAssign d s | .vSwap d s | .xCopy d s | .xAssign d s | .pCopy d s
   | .pAssign d s | .pSwap d s | .pLink d s | .pNextOf d s => d < nVars ∧ s < nVars
 
@@ -358,7 +358,7 @@ def idxMine (mine : Nat → Bool) : ApiOp → Prop
   | .sNew d _ | .sLit d _ | .sClear d | .sAppend d _ | .sReserve d _ | .sDel d | .sSet d _ | .sPrepend d _ | .sResize d _
   | .sEdit d _ _ _ | .sPrintf d _ | .vClear d | .vSetInt d _ | .vSetStr d _ | .vAppStr d _ | .vPush d _ | .vSetList d _
   | .vPushA d _ | .vSetArr d _ | .vPutM d _ _ | .vSetMap d _ _ | .xClear d | .xSetStr d _ | .xElem d _ | .pNew d _
-  | .pClear d | .pNext d => mine d = true
+  | .pClear d | .pNext d | .gNew d _ _ _ _ | .gEdit d _ _ => mine d = true
   | .sCopy d s | .sAssign d s | .vCopy d s | .vAssign d s | .vSwap d s | .xCopy d s | .xAssign d s | .pCopy d s
   | .pAssign d s | .pSwap d s | .pLink d s | .pNextOf d s => mine d = true ∧ mine s = true
 
@@ -771,6 +771,26 @@ theorem flat_lists_ok (n tid : Nat) (op : ApiOp) (mine : Nat → Bool) (hn : nSl
     have f2 : ¬ 16 + 2 * tid + 1 = s := by omega
     have f3 : ¬ s = 16 + 2 * tid := by omega
     have f4 : ¬ s = 16 + 2 * tid + 1 := by omega
+    simp only [pre, boxAssign]
+    (repeat' split) <;> absauto2
+  case gNew d tag inl val cap =>
+    have h1 : d < n := by omega
+    have e1 : ¬ 16 + 2 * tid = d := by omega
+    have e2 : ¬ 16 + 2 * tid + 1 = d := by omega
+    have e3 : ¬ d = 16 + 2 * tid := by omega
+    have e4 : ¬ d = 16 + 2 * tid + 1 := by omega
+    have h3 : 16 + 2 * tid + 1 < n := by omega
+    have h4 : 16 + 2 * tid < n := by omega
+    simp only [pre, boxAssign]
+    (repeat' split) <;> absauto2
+  case gEdit d skip nv =>
+    have h1 : d < n := by omega
+    have e1 : ¬ 16 + 2 * tid = d := by omega
+    have e2 : ¬ 16 + 2 * tid + 1 = d := by omega
+    have e3 : ¬ d = 16 + 2 * tid := by omega
+    have e4 : ¬ d = 16 + 2 * tid + 1 := by omega
+    have h3 : 16 + 2 * tid + 1 < n := by omega
+    have h4 : 16 + 2 * tid < n := by omega
     simp only [pre, boxAssign]
     (repeat' split) <;> absauto2
 
